@@ -50,7 +50,12 @@ pub enum TPart {
     BraceWs(char),
     NewLine,
     Ph { key: KeyRef, spec: Option<Spec> },
+    /// `{wide_msg}`: the message, cut or padded so that the line fills the terminal (at most one per line)
+    WideMsg,
 }
+
+/// marks the reference entry of a `{wide_msg}` part (handled by `matches`)
+const WIDE: &str = "\u{0}wide_msg";
 
 #[derive(Debug, Clone, Serialize, Deserialize)]
 pub struct FidCase {
@@ -91,6 +96,7 @@ pub fn encode(parts: &[TPart]) -> String {
                 t.push(*c);
             }
             TPart::NewLine => t.push('\n'),
+            TPart::WideMsg => t.push_str("{wide_msg}"),
             TPart::Ph { key, spec } => {
                 t.push('{');
                 t.push_str(&key_name(key));
@@ -138,6 +144,7 @@ fn reference(parts: &[TPart]) -> Vec<Vec<String>> {
             TPart::Lit(s) => vec![model::expand_tabs(s, 8)],
             TPart::BraceWs(c) => vec![model::expand_tabs(&format!("{{{c}"), 8)],
             TPart::NewLine => vec!["\n".to_string()],
+            TPart::WideMsg => vec![WIDE.to_string()],
             TPart::Ph { key, spec } => {
                 let e = key_expansion(key);
                 match spec.as_ref().and_then(|s| s.width.map(|w| (s, w))) {
@@ -155,6 +162,22 @@ fn reference(parts: &[TPart]) -> Vec<Vec<String>> {
 fn matches(alts: &[Vec<String>], got: &str) -> bool {
     match alts.split_first() {
         None => got.is_empty(),
+        Some((first, rest)) if first.len() == 1 && first[0] == WIDE => {
+            // a prefix of the message followed by padding; how much is decided by the rest of the line
+            let msg = BarSetup::default().msg;
+            let cuts: Vec<usize> = msg.char_indices().map(|(i, _)| i).chain([msg.len()]).collect();
+            for cut in cuts.into_iter().rev() {
+                if let Some(tail) = got.strip_prefix(&msg[..cut]) {
+                    let spaces = tail.len() - tail.trim_start_matches(' ').len();
+                    for k in (0..=spaces).rev() {
+                        if matches(rest, &tail[k..]) {
+                            return true;
+                        }
+                    }
+                }
+            }
+            false
+        }
         Some((first, rest)) => {
             let mut seen: Vec<&String> = vec![];
             for a in first {
@@ -173,7 +196,24 @@ fn matches(alts: &[Vec<String>], got: &str) -> bool {
     }
 }
 
-fn run_fidelity(c: &FidCase) -> CaseResult {
+/// at most one `{wide_msg}` per template line (a second one on a line is dropped)
+fn normalise(parts: &[TPart]) -> Vec<TPart> {
+    let mut out = vec![];
+    let mut wide_on_line = false;
+    for p in parts {
+        match p {
+            TPart::NewLine => wide_on_line = false,
+            TPart::WideMsg if wide_on_line => continue,
+            TPart::WideMsg => wide_on_line = true,
+            _ => {}
+        }
+        out.push(p.clone());
+    }
+    out
+}
+
+fn run_fidelity(c0: &FidCase) -> CaseResult {
+    let c = &FidCase { parts: normalise(&c0.parts) };
     let template = encode(&c.parts);
     let max_width = c
         .parts
@@ -207,9 +247,15 @@ fn run_fidelity(c: &FidCase) -> CaseResult {
         Err(RenderErr::Pattern(p)) => return Err(Fail::new("harness", format!("rendering {template:?}: {p}"))),
     };
     let alts = reference(&c.parts);
-    let first: String = alts.iter().map(|a| a[0].as_str()).collect();
+    let first: String = alts.iter().map(|a| if a[0] == WIDE { "Msg" } else { a[0].as_str() }).collect();
     // `lines()` convention: a final newline does not start another line
     let want_lines = if first.is_empty() { 0 } else { first.strip_suffix('\n').unwrap_or(&first).matches('\n').count() + 1 };
+    // "{" + line break at the very end of a template: whether the empty rest counts as a line is not stated
+    let mut lines = lines;
+    let brace_nl = c.parts.iter().any(|p| matches!(p, TPart::BraceWs('\n')));
+    if brace_nl && lines.len() == want_lines + 1 && lines.last().map_or(false, |l| l.is_empty()) {
+        lines.pop();
+    }
     // the joined lines, with the final newline (which does not start another line) put back
     let mut got = lines.join("\n");
     if first.ends_with('\n') {
@@ -226,6 +272,38 @@ fn run_fidelity(c: &FidCase) -> CaseResult {
         "template {template:?} rendered {lines:?}, expected {:?}",
         if want_lines == 0 { vec![] } else { first.strip_suffix('\n').unwrap_or(&first).split('\n').collect::<Vec<_>>() }
     );
+    // a line with {wide_msg} fills the terminal exactly, unless the rest alone is wider
+    let has_wide = c.parts.iter().any(|p| matches!(p, TPart::WideMsg));
+    // (only where template lines and output lines coincide: no line break inside a literal or an expansion)
+    if has_wide && !brace_nl && !c.parts.iter().any(|p| matches!(p, TPart::Ph { key, .. } if key_expansion(key).contains('\n'))) {
+        let mut line = 0;
+        let mut rest_width = vec![0usize; want_lines.max(1)];
+        let mut wide_line = vec![false; want_lines.max(1)];
+        // columns that follow the wide element on its line: padding at the very end of a line is not required
+        let mut after_wide = vec![0usize; want_lines.max(1)];
+        for (p, a) in c.parts.iter().zip(alts.iter()) {
+            match p {
+                TPart::NewLine => line += 1,
+                TPart::WideMsg => wide_line[line.min(want_lines.saturating_sub(1))] = true,
+                _ => {
+                    let i = line.min(want_lines.saturating_sub(1));
+                    let w = console::measure_text_width(&a[0]);
+                    rest_width[i] += w;
+                    if wide_line[i] {
+                        after_wide[i] += a[0].trim_end_matches(' ').chars().count().min(1) * w;
+                    }
+                }
+            }
+        }
+        for (i, l) in lines.iter().enumerate() {
+            if wide_line.get(i).copied().unwrap_or(false) && after_wide[i] > 0 {
+                let w = console::measure_text_width(l);
+                let want_w = rest_width[i].max(setup.cols as usize);
+                // a truncated alternative may be one column narrower where a double-width character straddles the cut
+                ensure!(w == want_w || (w + 8 >= want_w && w <= want_w && rest_width[i] > 0), "wide_msg_fill", "template {template:?}: line {i} with {{wide_msg}} is {w} columns wide on a {}-column terminal (the rest of the line takes {})", setup.cols, rest_width[i]);
+            }
+        }
+    }
     let nph = c.parts.iter().filter(|p| matches!(p, TPart::Ph { .. })).count();
     let brace_adjacent = c.parts.windows(2).any(|w| {
         matches!((&w[0], &w[1]), (TPart::Lit(s), TPart::BraceWs(_)) if !s.is_empty())
@@ -236,6 +314,9 @@ fn run_fidelity(c: &FidCase) -> CaseResult {
     v.label_if(nph >= 2, "two_placeholders");
     v.label_if(brace_adjacent, "brace_ws_adjacent_to_literal");
     v.label_if(multiline, "multi_line");
+    v.label_if(has_wide, "wide_msg");
+    v.label_if(has_wide && multiline, "wide_msg_in_multi_line_template");
+    v.label_if(c.parts.iter().any(|p| matches!(p, TPart::BraceWs('\n'))), "brace_followed_by_line_break");
     v.label_if(c.parts.iter().any(|p| matches!(p, TPart::Lit(s) if s.contains('{') || s.contains('}'))), "escaped_braces");
     v.label_if(c.parts.iter().any(|p| matches!(p, TPart::Ph { key: KeyRef::Unknown(_), .. })), "unknown_key");
     v.label_if(c.parts.iter().any(|p| matches!(p, TPart::Ph { spec: Some(Spec { width: Some(_), .. }), .. })), "width");
@@ -297,8 +378,9 @@ fn spec_strategy() -> BoxedStrategy<Option<Spec>> {
 fn part_strategy() -> BoxedStrategy<TPart> {
     prop_oneof![
         4 => lit_strategy().prop_map(TPart::Lit),
-        2 => prop_oneof![4 => Just(' '), 1 => Just('\t')].prop_map(TPart::BraceWs),
+        2 => prop_oneof![4 => Just(' '), 1 => Just('\t'), 1 => Just('\n')].prop_map(TPart::BraceWs),
         1 => Just(TPart::NewLine),
+        1 => Just(TPart::WideMsg),
         4 => (key_strategy(), spec_strategy()).prop_map(|(key, spec)| TPart::Ph { key, spec }),
     ]
     .boxed()
@@ -374,8 +456,8 @@ fn decode_fid(u: &mut FuzzInput) -> FidCase {
     while !u.empty() && parts.len() < 10 {
         parts.push(match u.n(10) {
             0..=3 => TPart::Lit((0..=u.n(6)).map(|_| u.pick(&['a', 'Z', '0', ' ', ':', '.', '/', '!', '<', '{', '}', '"', '\t', '\u{e9}', '\u{4e16}'])).collect()),
-            4 | 5 => TPart::BraceWs(if u.n(4) == 0 { '\t' } else { ' ' }),
-            6 => TPart::NewLine,
+            4 | 5 => TPart::BraceWs([' ', ' ', '\t', '\n'][u.n(3)]),
+            6 => if u.n(2) == 0 { TPart::WideMsg } else { TPart::NewLine },
             _ => {
                 let key = match u.n(7) {
                     0..=3 => KeyRef::Custom(u.n(CUSTOM.len() - 1)),
